@@ -56,7 +56,7 @@ else:
         env["VX_REPO"] = wt
         meta["check"] = {"detected": False, "runs": []}
         for pr in prop.split(","):
-            rc, out, dt = run("./check %s --tier quick -no-evidence"%pr, "/verif", timeout=3000)
+            rc, out, dt = run("./check %s --tier quick -no-evidence -jobs 8"%pr, "/verif", timeout=3000)
             lines = [l for l in out.splitlines() if l.startswith(("VIOLATION","gosmx:","KNOWN","ENCOD","INCONCL","VACUOUS","BOUND"))]
             meta["check"]["runs"].append({"cmd": "./check %s --tier quick"%pr, "exit": rc, "seconds": round(dt,1), "detected": rc == 1, "lines": lines[:12]})
             meta["check"]["detected"] |= (rc == 1)
